@@ -1103,6 +1103,63 @@ def r05_15(chk, tier, units=('bson',), files=('bson_decimal128.hpp',)):
                                          fn['n'], A.text([x for t, x in targets if t is hit][0])[:40], hit.line, vname, inc.line, vname, N, adecl.get('n')), {'increment_line': inc.line, 'access_line': hit.line}, fn['q'])
     chk.require(n >= 1, 'R05.15: no growing index into a fixed local array found in %s' % (files,))
 
+def r05_16(chk, tier, units=('bson',)):
+    """What an encoder reads out of a caller's string it reads inside that string."""
+    chk.rule('R05.16', 'indexed reads of a view parameter: in the binary-format headers every `p[e]` on a string_view / span parameter is preceded '
+                       'by a test of p.size() (or length(), empty()) - in the function itself, or before the call in every caller that '
+                       'passes it a value it did not measure; the text of a tagged string (an object id, a decimal) comes from the user '
+                       'and may be shorter than the fixed number of characters a conversion loop reads', floor=1)
+    n = 0
+    for unit in units:
+        facts = F.load([unit], tier)
+        if unit not in chk.units: chk.units.append(unit)
+        fns = [f for f in facts.functions if f.get('body') is not None and not f.get('dep') and f['file'].startswith('include/jsoncons_ext/' + unit)]
+        def size_tested(fn, g, nd, name):
+            for a, lab, e in (g.guards(nd) if nd is not None else []):
+                for c in A.calls_in(a):
+                    if A.callee_name(c) in ('size', 'length', 'empty') and A.ref_name(c.get('obj')) == name: return True
+            return False
+        seen = set()
+        for fn in fns:
+            pids = {p_['id']: p_ for p_ in fn['params'] if 'string_view' in F.tname(fn, p_['t']) or 'span<' in F.tname(fn, p_['t'])}
+            if not pids: continue
+            sites = []
+            for x in A.walk_no_lambda(fn['body']):
+                if x.get('k') == 'CXXOperatorCallExpr' and x.get('oop') == '[]' and x.get('args'):
+                    o = A.strip(x['args'][0], casts=True)
+                    if o is not None and o.get('k') == 'DeclRefExpr' and o.get('id') in pids and A.const(x['args'][1]) is None: sites.append((x, pids[o['id']]))
+            if not sites: continue
+            g = C.CFG(fn['body'])
+            for x, prm in sites:
+                if (fn['file'], x.get('l'), x.get('col')) in seen: continue
+                seen.add((fn['file'], x.get('l'), x.get('col')))
+                n += 1
+                chk.analysed(fn)
+                site = U.site(fn, '%s[%s]@%d' % (prm['n'], A.text(x['args'][1])[:14], x.get('l', 0) - fn['l']))
+                ok = size_tested(fn, g, g.node_of(x), prm['n'])
+                why = None
+                if not ok:
+                    # the callers: each measures what it passes before the call
+                    pos = [i for i, p_ in enumerate(fn['params']) if p_['id'] == prm['id']][0]
+                    callers = []
+                    for f2 in fns:
+                        for c in A.walk_no_lambda(f2['body']):
+                            if c.get('k') in ('CXXConstructExpr', 'CXXTemporaryObjectExpr', 'CallExpr', 'CXXMemberCallExpr') and facts.callee(f2, c) is fn: callers.append((f2, c))
+                    if callers:
+                        ok = True
+                        for f2, c in callers:
+                            a = (c.get('args') or [None] * (pos + 1))[pos] if pos < len(c.get('args') or []) else None
+                            an = A.ref_name(a) if a is not None else ''
+                            g2 = C.CFG(f2['body'])
+                            if not (an and size_tested(f2, g2, g2.node_of(c), an)):
+                                ok = False; why = '%s (line %s) passes `%s` without having tested its size' % (f2['n'], c.get('l'), an or A.text(a)[:20])
+                    else: why = 'no caller in the library measures it either'
+                if ok: chk.ok('R05.16', site, {'function': fn['q'], 'line': x.get('l')})
+                else:
+                    chk.fail('R05.16', site, fn['file'], x.get('l'), '%s reads `%s` with no test of %s.size() on the way; %s: a shorter string is read past its end' % (
+                        fn['n'] if fn.get('fk') != 'CXXConstructor' else fn['q'].split('::')[-1] + ' constructor', A.text(x)[:30], prm['n'], why), None, fn['q'])
+    chk.require(n >= 1, 'R05.16: no indexed read of a view parameter found')
+
 def run(chk, tier, only_rule=None):
     chk.explanation = EXPLANATION
     chk.not_decided = NOT_DECIDED
@@ -1124,6 +1181,7 @@ def run(chk, tier, only_rule=None):
     r05_12(chk, tier)
     r05_14(chk, tier)
     r05_15(chk, tier)
+    r05_16(chk, tier)
     from . import c15
     for u_ in ('core', 'csv', 'jsonpath', 'jmespath', 'toon'):
         c15.r15_8(chk, F.load([u_], tier), rid='R05.13', floor=1)
